@@ -439,12 +439,14 @@ func (c *client) processRPCs() {
 	}
 }
 
-func returnResult(c hrpc.Call, msg proto.Message, err error) {
+// returnResult completes the call. For a multi it returns the ServerError
+// found inside the response, if any (see multi.returnResults).
+func returnResult(c hrpc.Call, msg proto.Message, err error) error {
 	if m, ok := c.(*multi); ok {
-		m.returnResults(msg, err)
-	} else {
-		c.ResultChan() <- hrpc.RPCResult{Msg: msg, Error: err}
+		return m.returnResults(msg, err)
 	}
+	c.ResultChan() <- hrpc.RPCResult{Msg: msg, Error: err}
+	return nil
 }
 
 func (c *client) trySend(rpc hrpc.Call) (err error) {
@@ -540,7 +542,13 @@ func (c *client) receive(r io.Reader) (err error) {
 	// Here we know for sure that we got a response for rpc we asked.
 	// It's our responsibility to deliver the response or error to the
 	// caller as we unregistered the rpc.
-	defer func() { returnResult(rpc, response, err) }()
+	defer func() {
+		if serr := returnResult(rpc, response, err); serr != nil && err == nil {
+			// a regionserver-fatal exception inside a multi response:
+			// fail this client like for any other ServerError
+			err = serr
+		}
+	}()
 
 	if header.Exception != nil {
 		err = exceptionToError(*header.Exception.ExceptionClassName, *header.Exception.StackTrace)
